@@ -369,3 +369,34 @@ func rezero(b *decl.Built) {
 	}
 	b.ExecLog = nil
 }
+
+// earlierParse runs argv on the same parser before the parse under test (a program that re-uses its parser, or
+// that retries after a rejected command line). Options in keep are left holding what that parse gave them and are
+// returned for ref.Config.Held; every other field and every call log is put back, and no command stays selected.
+func earlierParse(b *decl.Built, cfg *ref.Config, argv []string, keep ...*decl.Opt) (*realRun, map[*decl.Opt]reflect.Value) {
+	wr := runParser(b, cfg, argv, runOpts{})
+	held := map[*decl.Opt]reflect.Value{}
+	saved := map[*decl.Opt]reflect.Value{}
+	for _, o := range keep {
+		if o.Type.IsFunc() {
+			continue
+		}
+		v := reflect.New(b.Vals[o].Type()).Elem()
+		v.Set(decl.CopyInitial(b.Vals[o]))
+		saved[o] = v
+		held[o] = decl.CopyInitial(v)
+	}
+	rezero(b)
+	for o, v := range saved {
+		b.Vals[o].Set(v)
+	}
+	for _, fc := range b.Cmds {
+		if fc != nil {
+			fc.Active = nil
+		}
+	}
+	if b.Parser != nil {
+		b.Parser.Active = nil
+	}
+	return wr, held
+}
